@@ -71,21 +71,11 @@ partial def countNodes (n : Node) : Nat :=
 def hasRawString (n : Node) : Bool :=
   anyNode (fun x => match x.tok with | some t => t.id = tSTRING && !t.allowEscapes | none => false) n
 
-/-- known finding `mul-right-brackets`: a times node whose right child is times or div -/
+/-- known finding `mul-right-brackets`: a times node whose right child is times or div with a pure product
+    chain on its left spine (fix C08-product-chain-brackets: otherwise the brackets are printed) -/
 def hasMulRight (n : Node) : Bool :=
   anyNode (fun x => x.name = "times" && (match x.children with
-    | [_, some r] => (r.name = "times" || r.name = "div") && r.children.length = 2
-    | _ => false)) n
-
-/-- the product spliced into its right operand reaches a `//` or `%` on the left spine (value may change) -/
-partial def spineImpure (n : Node) : Bool :=
-  if ["times", "div", "divint", "modint"].contains n.name && n.children.length = 2 then
-    n.name = "divint" || n.name = "modint" || (match n.children with | some l :: _ => spineImpure l | _ => false)
-  else false
-
-def hasMulImpure (n : Node) : Bool :=
-  anyNode (fun x => x.name = "times" && (match x.children with
-    | [_, some r] => (r.name = "times" || r.name = "div") && r.children.length = 2 && spineImpure r
+    | [_, some r] => (r.name = "times" || r.name = "div") && r.children.length = 2 && isProductChain r x.binding
     | _ => false)) n
 
 def hasPreComment (n : Node) : Bool := anyNode (fun x => x.metas.any (·.pre)) n
@@ -264,7 +254,7 @@ def runCase (payload : String) : String :=
             let toks := Ecal.C08.printToks Ecal.C08.realPowers Ecal.C08.realExc e
             -- PrettyPrint trims the whole text (an indented keyword at the very start loses its indent)
             let t := trimSpace (Ecal.C08.renderP atoms none (Ecal.C08.annot Ecal.C08.realPowers Ecal.C08.realExc e))
-            let exc := Ecal.C08.hasExc Ecal.C08.realExc e
+            let exc := Ecal.C08.hasExc Ecal.C08.realPowers Ecal.C08.realExc e
             if t != txt then (some ("MODEL-DRIFT expr=" ++ hexEnc t ++ " full=" ++ hexEnc txt), true)
             else if exc != mul then (some "CLASSIFIER-DRIFT", true)
             else if !exc && Ecal.C08.run Ecal.C08.realPowers (4 * toks.length + 4) 0 toks != some (e, []) then
@@ -283,8 +273,7 @@ def runCase (payload : String) : String :=
           let line (rt : String) := "txt=" ++ hexEnc txt ++ " rt=" ++ rt ++ " idem=" ++ idem ++
             (if rt = "diff" then " eqm=" ++ eqm else "") ++
             (if ff then " ff=ok" else "") ++
-            (if ev = "1" && (rt = "ok" || (rt = "diff" && eqm = "ok")) && !hasRawInterp ast &&
-              !(rt = "diff" && hasMulImpure ast) then " beh=ok" else "")
+            (if ev = "1" && (rt = "ok" || (rt = "diff" && eqm = "ok")) && !hasRawInterp ast then " beh=ok" else "")
           let kf : Option String :=
             if post then some "newline-inside-statement"
             else if eret then some "bare-return-at-end"
